@@ -817,8 +817,8 @@ def run(ctx):
                 probs = check_rs(line, meta, h, d0, d1, d2, stats)
             else:
                 probs = check_rwp(line, meta, h, d0, d1, stats)
-        except (IndexError, ValueError) as ex:
-            probs = [("prop", "malformed-output", "harness output not parseable (%s): %s" % (ex, h[:120]))]
+        except (IndexError, ValueError, OverflowError, ZeroDivisionError, KeyError, TypeError) as ex:
+            probs = [("prop", "malformed-output", "harness output not parseable / not finite (%r): %s" % (ex, h[:120]))]
         if "call" in meta:
             kname = KIND_NAMES.get(meta["kind"] % 100, "?") + (" handed over after the first call" if meta["kind"] >= 100 else "")
             probs = [(kind, key2, "call %d on one object [%s]: %s" % (meta["call"], kname, what)) for kind, key2, what in probs]
